@@ -141,9 +141,17 @@ var c16Topics = []c16Topic{
 	}},
 	{tag: "ROACH", persist: true, make: func(r *c16Rnd) any {
 		hp := r.strs(3)
+		if r.u()%3 == 0 {
+			// an address the next start-up can really bind (a UDP port of this shard's own range): the device is created there
+			shard, _ := strconv.Atoi(os.Getenv("VERIF_SHARD"))
+			hp = []string{fmt.Sprintf("127.0.0.1:%d", 28000+(shard%64)*20+r.i(0, 19))}
+		}
 		rates := make([]float64, len(hp)) // one rate per address, as Configure demands
 		for k := range rates {
 			rates[k] = r.f() + 1
+			if r.u()%2 == 0 {
+				rates[k] = []float64{689500, 1e6, 488281.25, 123456.7, 2e6 / 3}[r.u()%5]
+			}
 		}
 		return &RoachSourceConfig{HostPort: hp, Rates: rates, AbacoUnwrapOptions: c16Unwrap(r)}
 	}, load: func() (any, error) {
